@@ -557,14 +557,22 @@ func histSteps(c Case) []Event {
 
 func emptyGen(r *rand.Rand, n int, tier string, emit func(Case)) {
 	emit(Case{"kind": "zero"})
-	for i := 0; i < n; i++ {
+	for i := 0; i < n+bigExtra(n)/2; i++ {
 		l := &lgen{r: r, N: 3 + r.Intn(4)}
 		g := l.leafOfType(3 + r.Intn(3))
-		switch r.Intn(3) {
+		sel := r.Intn(3)
+		if i >= n { // large sizes come last: many members, members of many vertices
+			l, sel = bigLatticeTo(r, 12, 16), 2+r.Intn(2)
+		}
+		switch sel {
 		case 0:
 			g = l.collection(0)
 		case 1:
 			g = l.leafOfType(r.Intn(3)) // wrapped into a collection
+		case 2:
+			g = l.bigLeaf(3 + r.Intn(3))
+		case 3:
+			g = l.bigCollection()
 		}
 		ops := []interface{}{}
 		for k, m := 0, 1+r.Intn(5); k < m; k++ {
